@@ -335,3 +335,90 @@ def run_columns_faults(args):
     finally:
         shutil.rmtree(scratch, ignore_errors=True)
     return stats, problems
+
+
+def run_columns_ids_alias(args):
+    """C04: a column cache reads the `ids` of the previous layer; whatever it does with them, `ids` and the fields computed from
+    them keep returning what the pipeline without caches returns - also when `ids` is an unsorted LIST kept by a RAM cache below."""
+    seed, n = args
+    from .pipeline import Builder
+    from .sym import SymWorld
+    scratch = tempfile.mkdtemp(prefix='cv-cola-', dir=paths.SCRATCH)
+    problems, stats = [], {'alias_cases': 0, 'calls': 0}
+    try:
+        for c in range(n):
+            rng = random.Random(seed * 7477 + c)
+            root = tempfile.mkdtemp(dir=scratch)
+            ids = [f'i{k}' for k in range(rng.randint(3, 7))]
+            rng.shuffle(ids)
+            as_list = rng.random() < 0.7
+            src = {'k': 'source', 'cls': 'CA', 'ids': ids, 'ids_list': as_list, 'fields': {'x': {'args': ['i']}}, 'params': {}, 'cargs': {}, 'defaults': {}}
+            layers = [src]
+            if rng.random() < 0.7:
+                layers.append({'k': 'ram', 'names': None, 'size': None})
+            layers.append({'k': 'columns', 'names': ['x'], 'root': 0, 'shard': rng.choice([None, 2, 3])})
+            if rng.random() < 0.5:
+                layers.append({'k': 'ram', 'names': None, 'size': None})
+            desc = {'k': 'chain', 'flavour': 'chain', 'layers': layers}
+            world = SymWorld()
+            want = list(ids) if as_list else tuple(ids)
+            try:
+                p = Builder(world, roots=[root]).layer(desc)
+                stats['alias_cases'] += 1
+                for step in range(4):
+                    got = p.ids
+                    stats['calls'] += 1
+                    if got != want or type(got) is not type(want):
+                        problems.append({'desc': desc, 'value': True, 'msg': f'after {step} column requests `ids` returned {got!r}; the pipeline '
+                                         f'without cache layers returns {want!r}'})
+                        break
+                    k2 = rng.choice(ids)
+                    v = canon(val_to_json(p.x(k2), world))
+                    if v != canon({'app': ['CA.x', [k2], [], []]}):
+                        problems.append({'desc': desc, 'value': True, 'msg': f'x({k2!r}) returned {v[:100]}'})
+                        break
+            except Exception as e:
+                problems.append({'desc': desc, 'msg': 'raised ' + type(e).__name__ + ': ' + str(e)[:200]})
+    finally:
+        shutil.rmtree(scratch, ignore_errors=True)
+    return stats, problems
+
+
+def run_lru_big(args):
+    """C08 bound for LARGE sizes (direct oracle, no model): a MemoryCache(size) and a CacheToRam(size=...) pipeline fed with more than
+    `size` distinct keys never hold more than `size` entries - also after clear() - hit on the `size` most recent keys and
+    have evicted the key used before them."""
+    seed, n = args
+    paths.use_repo()
+    from connectome.cache import MemoryCache
+    from connectome.engine import LeafHash
+    problems, stats = [], {'big_cases': 0, 'ops': 0}
+    for c in range(n):
+        rng = random.Random(seed * 52361 + c)
+        size = rng.choice([rng.randint(6, 40), rng.randint(100, 300), 1023, 1024, 1025, rng.randint(1026, 2047), 2048, 2049,
+                           rng.randint(2050, 3500)])
+        cache = MemoryCache(size)
+        extra = rng.randint(1, 40)
+        worst = 0
+        for rnd in range(2):
+            base = rnd * 100000
+            for i in range(size + extra):
+                cache.set(LeafHash(base + i), i, None)
+                worst = max(worst, len(cache._cache))
+            stats['ops'] += size + extra
+            recent = [base + i for i in range(extra, size + extra)]
+            probe = [recent[0], recent[-1], rng.choice(recent)]
+            misses = [k for k in probe if not cache.get(LeafHash(k), None)[1]]
+            old_hit = cache.get(LeafHash(base + extra - 1), None)[1]
+            if worst > size:
+                problems.append({'size': size, 'msg': f'MemoryCache(size={size}) held {worst} entries' + (' after clear()' if rnd else '')})
+                break
+            if misses:
+                problems.append({'size': size, 'msg': f'MemoryCache(size={size}): {len(misses)} of the {size} most recently used keys missed'})
+                break
+            if old_hit:
+                problems.append({'size': size, 'msg': f'MemoryCache(size={size}): a key used before the {size} most recent ones was still served'})
+                break
+            cache.clear()
+        stats['big_cases'] += 1
+    return stats, problems
